@@ -18,7 +18,7 @@ for cls, n in CLSN.items():
     for h in ('h_add', 'h_remove'):
         job('node.db64.i%d.%s' % (n, h[2:]), ['C01', 'C10', 'C16'], 'u_db', 'proofs/node/write.c', entry=h, defines=['CLS=%d' % cls, 'POL=DB64'],
             roots={'ADD': node_rx(n, '64', 'db') + r'add_to_nonfull\(', 'REMOVE': node_rx(n, '64', 'db') + r'remove\(unsigned char'}, stubs={'LEAF_DEL': LEAFDEL['64']},
-            cfgs=CFG_NODE, thorough_cfgs=ALL_CFGS, unwind={1: 6, 2: 18, 3: 258, 4: 258}[cls], unwindset=({'ADD': 8} if cls == 3 else None), floor=10, timeout=900,
+            cfgs=CFG_NODE, thorough_cfgs=ALL_CFGS, unwind={1: 6, 2: 18, 3: 258, 4: 258}[cls], unwindset=({'ADD': 8} if cls == 3 else None), floor=10, timeout=1500, mem_gb=(28 if cls == 3 else 12),
             under_contract=['basic_inode_%d<db, uint64_t>::%s' % (n, 'add_to_nonfull' if h == 'h_add' else 'remove')])
 KP = r'^unodb::detail::key_prefix<unodb::detail::basic_art_key<unsigned long>, unodb::detail::basic_inode_impl<unodb::detail::basic_art_policy<unsigned long, %s, unodb::db, .*::' % SPAN
 KPR = {'CUT': KP + r'cut\(unsigned char\)', 'PREPEND': KP + r'prepend\(', 'GSL': KP + r'get_shared_length\(unsigned long\) const', 'CTOR_LEN': KP + r'key_prefix\(unsigned int, ',
@@ -26,3 +26,12 @@ KPR = {'CUT': KP + r'cut\(unsigned char\)', 'PREPEND': KP + r'prepend\(', 'GSL':
 for h in ('h_cut', 'h_prepend', 'h_shared', 'h_ctor_len', 'h_snapshot'):
     job('node.db64.prefix.%s' % h[2:], ['C01', 'C16'] + (['C02'] if h == 'h_snapshot' else []), 'u_db', 'proofs/node/prefix.c', entry=h, roots=KPR, cfgs=(BASE, DEBUG), floor=5, timeout=300,
         under_contract=['key_prefix<db,uint64_t>::%s' % h[2:]], replay='replay/prefix.cpp')
+INODEDEL = r'^unodb::detail::basic_db_inode_deleter<unodb::detail::inode_%%d<unsigned long, %s >, unodb::db<unsigned long, %s > >::operator\(\)' % (SPAN, SPAN)
+for frm, to in ((1, 2), (2, 3), (3, 4), (2, 1), (3, 2), (4, 3)):
+    nf, nt = CLSN[frm], CLSN[to]
+    ctor = node_rx(nt, '64', 'db') + r'basic_inode_%d\(unodb::db<unsigned long, %s >&, unodb::detail::inode_%d<unsigned long, %s >&, %s' % (nt, SPAN, nf, SPAN, 'std::unique_ptr' if to > frm else 'unsigned char')
+    heavy = (frm, to) in ((3, 2), (3, 4), (4, 3))      # 256-step copy loops: need loop invariants, not closed within budget -> not registered under any property
+    job('node.db64.ctor.i%d_to_i%d' % (nf, nt), [] if heavy else ['C01', 'C10', 'C16'], 'u_db', 'proofs/node/ctor.c', tier=('off' if heavy else 'quick'), defines=['FROM=%d' % frm, 'TO=%d' % to, 'POL=DB64'],
+        roots={'CTOR': ctor, 'SRC_FIND': node_rx(nf, '64', 'db') + r'find_child\(std::byte\)', 'DST_FIND': node_rx(nt, '64', 'db') + r'find_child\(std::byte\)'},
+        stubs={'LEAF_DEL': LEAFDEL['64'], 'INODE_DEL': INODEDEL % nf}, cfgs=CFG_NODE, thorough_cfgs=ALL_CFGS, unwind=258 if max(frm, to) >= 3 else 20, floor=10, timeout=1200,
+        under_contract=['basic_inode_%d<db, uint64_t>::basic_inode_%d(db&, inode_%d&, ...) + init (%s)' % (nt, nt, nf, 'growth' if to > frm else 'shrink')])
